@@ -171,7 +171,8 @@ def rule_W8(ctx, typer):
     from .purity import Purity
     purity = Purity(ctx.p, typer)
     n = 0
-    for func in ctx.p.all_funcs:
+    # the assertion switch belongs to the structural code: the node package (an assert elsewhere is not C01's subject)
+    for func in [g for g in ctx.p.all_funcs if g.module.relpath.startswith("anytree/node/")]:
         asserts = [x for x in walk_own(func.node) if isinstance(x, ast.Assert)]
         if not asserts:
             continue
